@@ -33,23 +33,22 @@ Check C26_roundtrip : forall (pfam : N -> bool) (fuel : nat) (s ext : db) (lru0 
   d_cell s' = d_cell ext /\ d_pcell s' = d_pcell ext /\ d_log s' = d_log ext.
 Print Assumptions C26_roundtrip.
 
-(* Flattening covers: for every memo table whose recorded graph is acyclic and whose function
-   edges point to functions that have a memo, after flattening the edges of an origin every
-   original edge is serialised or was expanded, every expanded dependency has a memo, and every
-   expanded dependency has all ITS edges serialised or expanded (a cut of the graph). *)
+(* Flattening covers: for every memo table whose recorded graph is acyclic, after flattening the
+   edges of an origin every original edge is serialised or was expanded, every expanded
+   dependency has a memo, and every expanded dependency has all ITS edges serialised or expanded
+   (a cut of the graph).  A dependency WITHOUT memo is serialised as an edge (fix of the
+   memo-less-dependency stale value), so nothing is assumed about which functions have memos. *)
 Theorem C26_flatten_covers : forall (pfam : N -> bool) (mm : qkey -> option memo) (rank : qkey -> nat),
   (forall g m c, mm g = Some m -> In (EQ c) (m_edges m) -> (rank c < rank g)%nat) ->
-  (forall g m c, mm g = Some m -> In (EQ c) (m_edges m) -> mm c <> None) ->
   forall (fuel : nat) (edges : list edge),
-  (forall e, In e edges -> (erank rank e < fuel)%nat /\ has_memo mm e) ->
+  (forall e, In e edges -> (erank rank e < fuel)%nat) ->
   let r := flatten_full pfam mm fuel edges in
   vis_ok mm (snd r) /\ closedX mm [] (fst r) (snd r) /\ (forall e, In e edges -> covered (fst r) (snd r) e).
 Proof. exact flatten_closed. Qed.
 Check C26_flatten_covers : forall (pfam : N -> bool) (mm : qkey -> option memo) (rank : qkey -> nat),
   (forall g m c, mm g = Some m -> In (EQ c) (m_edges m) -> (rank c < rank g)%nat) ->
-  (forall g m c, mm g = Some m -> In (EQ c) (m_edges m) -> mm c <> None) ->
   forall (fuel : nat) (edges : list edge),
-  (forall e, In e edges -> (erank rank e < fuel)%nat /\ has_memo mm e) ->
+  (forall e, In e edges -> (erank rank e < fuel)%nat) ->
   let r := flatten_full pfam mm fuel edges in
   vis_ok mm (snd r) /\ closedX mm [] (fst r) (snd r) /\ (forall e, In e edges -> covered (fst r) (snd r) e).
 Print Assumptions C26_flatten_covers.
@@ -60,18 +59,16 @@ Print Assumptions C26_flatten_covers.
    dependency has a changed recorded support: every ORIGINAL edge is [ok_edge] since r. *)
 Theorem C26_flatten_sound : forall (pfam : N -> bool) (mm : qkey -> option memo) (rank : qkey -> nat),
   (forall g m c, mm g = Some m -> In (EQ c) (m_edges m) -> (rank c < rank g)%nat) ->
-  (forall g m c, mm g = Some m -> In (EQ c) (m_edges m) -> mm c <> None) ->
   forall (din : ikey -> infield) (r : rev) (fuel : nat) (edges : list edge),
-  (forall e, In e edges -> (erank rank e < fuel)%nat /\ has_memo mm e) ->
+  (forall e, In e edges -> (erank rank e < fuel)%nat) ->
   lost_untracked pfam mm fuel edges = false ->
   (forall x, In x (flatten pfam mm fuel edges) -> ok_edge mm din r x) ->
   forall e, In e edges -> ok_edge mm din r e.
 Proof. exact flatten_sound. Qed.
 Check C26_flatten_sound : forall (pfam : N -> bool) (mm : qkey -> option memo) (rank : qkey -> nat),
   (forall g m c, mm g = Some m -> In (EQ c) (m_edges m) -> (rank c < rank g)%nat) ->
-  (forall g m c, mm g = Some m -> In (EQ c) (m_edges m) -> mm c <> None) ->
   forall (din : ikey -> infield) (r : rev) (fuel : nat) (edges : list edge),
-  (forall e, In e edges -> (erank rank e < fuel)%nat /\ has_memo mm e) ->
+  (forall e, In e edges -> (erank rank e < fuel)%nat) ->
   lost_untracked pfam mm fuel edges = false ->
   (forall x, In x (flatten pfam mm fuel edges) -> ok_edge mm din r x) ->
   forall e, In e edges -> ok_edge mm din r e.
@@ -104,7 +101,6 @@ Print Assumptions C26_snapshot_tracked_loses_nothing.
 Theorem C26_flatten_sound_snapshot :
   forall (pfam : N -> bool) (mm : qkey -> option memo) (rank : qkey -> nat),
   (forall g m c, mm g = Some m -> In (EQ c) (m_edges m) -> (rank c < rank g)%nat) ->
-  (forall g m c, mm g = Some m -> In (EQ c) (m_edges m) -> mm c <> None) ->
   forall (din : ikey -> infield) (r : rev) (fuel : nat) q m',
   (forall p, (S (rank p) < fuel)%nat) ->
   snap_memo pfam mm fuel q = Some m' -> m_untracked m' = false ->
@@ -114,7 +110,6 @@ Proof. exact flatten_sound_snapshot. Qed.
 Check C26_flatten_sound_snapshot :
   forall (pfam : N -> bool) (mm : qkey -> option memo) (rank : qkey -> nat),
   (forall g m c, mm g = Some m -> In (EQ c) (m_edges m) -> (rank c < rank g)%nat) ->
-  (forall g m c, mm g = Some m -> In (EQ c) (m_edges m) -> mm c <> None) ->
   forall (din : ikey -> infield) (r : rev) (fuel : nat) q m',
   (forall p, (S (rank p) < fuel)%nat) ->
   snap_memo pfam mm fuel q = Some m' -> m_untracked m' = false ->
@@ -123,20 +118,23 @@ Check C26_flatten_sound_snapshot :
 Print Assumptions C26_flatten_sound_snapshot.
 
 (* Serialised origins consist of directly serialised edges (input fields, persisted functions)
-   only, so serialising a restored database again expands nothing and can never lose an
-   untracked dependency — for all memo tables and fuels. *)
+   and of function dependencies that had NO memo when the origin was flattened (nothing covers
+   them; the edge is kept) — for all memo tables and fuels; and serialising again an origin all of
+   whose edges are serialised directly expands nothing and cannot lose an untracked dependency. *)
 Theorem C26_reserialise_loses_nothing :
   forall (pfam : N -> bool) (mm mm' : qkey -> option memo) (fuel fuel' : nat) (edges : list edge),
-  all_persistable pfam (flatten pfam mm fuel edges) /\
-  lost_untracked pfam mm' fuel' (flatten pfam mm fuel edges) = false.
+  (forall e, In e (flatten pfam mm fuel edges) ->
+     persistable pfam e = true \/ exists g, e = EQ g /\ mm g = None) /\
+  (all_persistable pfam edges -> lost_untracked pfam mm' fuel' edges = false).
 Proof.
   intros pfam mm mm' fuel fuel' edges.
-  split; [exact (flatten_persistable pfam mm fuel edges) | exact (reserialise_loses_nothing pfam mm mm' fuel fuel' edges)].
+  split; [exact (flatten_kept pfam mm fuel edges) | exact (reserialise_loses_nothing pfam mm' fuel' edges)].
 Qed.
 Check C26_reserialise_loses_nothing :
   forall (pfam : N -> bool) (mm mm' : qkey -> option memo) (fuel fuel' : nat) (edges : list edge),
-  all_persistable pfam (flatten pfam mm fuel edges) /\
-  lost_untracked pfam mm' fuel' (flatten pfam mm fuel edges) = false.
+  (forall e, In e (flatten pfam mm fuel edges) ->
+     persistable pfam e = true \/ exists g, e = EQ g /\ mm g = None) /\
+  (all_persistable pfam edges -> lost_untracked pfam mm' fuel' edges = false).
 Print Assumptions C26_reserialise_loses_nothing.
 
 (* Reuse, same revision — for all programs and states: a restored memo that was verified in the
@@ -196,8 +194,8 @@ Theorem C26_example_partial_query :
    snd r = [POk 2; POk 0; POk 0; POk 0; POk 8] /\
    evalo prog_pq FUEL (snap_of (ps_db (fst r))) (0, 0) = Some 8).
 Proof.
-  split; [exact (proj2 (proj2 (proj2 (proj2 ex_pq_hyps))))|].
-  split; [exact (proj1 (proj2 (proj2 (proj2 ex_pq_hyps))))|].
+  split; [exact (proj2 (proj2 (proj2 ex_pq_hyps)))|].
+  split; [exact (proj1 (proj2 (proj2 ex_pq_hyps)))|].
   split; [exact ex_pq_reuse | exact ex_pq_write].
 Qed.
 Check C26_example_partial_query :
@@ -231,6 +229,38 @@ Check C26_example_flattened_untracked_fixed :
   (let r := run prog_f2 [] nolru [OGet (0, 0); OSnapshot; ORestore; OGet (0, 0)] in
    snd r = [POk 0; POk 0; POk 0; POk 0] /\ d_log (ps_db (fst r)) = [EvExec (3, 0); EvExec (0, 0)]).
 Print Assumptions C26_example_flattened_untracked_fixed.
+
+(* the former stale-value witness of the memo-less dependency (an evicted, value-less memo is
+   not serialised; its restored caller is returned without a walk; a second snapshot reaches that
+   caller through a non-persisted function and finds a dependency WITHOUT memo): the edge is now
+   kept, and the request after the second restore and a write returns the from-scratch value;
+   without a call that initialises the dependency's ingredient it ends in the known class
+   (uninitialised ingredient), not in a stale value *)
+Theorem C26_example_memoless_dependency_fixed :
+  (let r := run prog_f4 [1] lru2 ops_f4 in
+   last (snd r) PFuel = POk 7 /\
+   evalo prog_f4 FUEL (snap_of (ps_db (fst r))) (0, 0) = Some 7 /\
+   option_map (fun m => (m_untracked m, m_edges m, m_verified m))
+     (d_memo (ps_db (fst (run prog_f4 [1] lru2 (firstn 10 ops_f4)))) (0, 0)) = Some (false, [EQ (1, 0)], 2) /\
+   d_memo (ps_db (fst (run prog_f4 [1] lru2 (firstn 8 ops_f4)))) (1, 0) = None) /\
+  last (snd (run prog_f4 [1] lru2
+    [OGet (0, 1); OGet (1, 1); OGet (1, 2); OSynth 0; OGet (0, 1); OSnapshot; ORestore;
+     OGet (0, 0); OSnapshot; ORestore; OSet (0, 0) 7 None; OGet (0, 0)])) PFuel = PPanic PUninit.
+Proof.
+  split; [|exact ex_f4_cold]. destruct ex_f4_fixed as (A & B & _ & C & D0 & _).
+  split; [exact A|]. split; [exact B|]. split; [exact C | exact D0].
+Qed.
+Check C26_example_memoless_dependency_fixed :
+  (let r := run prog_f4 [1] lru2 ops_f4 in
+   last (snd r) PFuel = POk 7 /\
+   evalo prog_f4 FUEL (snap_of (ps_db (fst r))) (0, 0) = Some 7 /\
+   option_map (fun m => (m_untracked m, m_edges m, m_verified m))
+     (d_memo (ps_db (fst (run prog_f4 [1] lru2 (firstn 10 ops_f4)))) (0, 0)) = Some (false, [EQ (1, 0)], 2) /\
+   d_memo (ps_db (fst (run prog_f4 [1] lru2 (firstn 8 ops_f4)))) (1, 0) = None) /\
+  last (snd (run prog_f4 [1] lru2
+    [OGet (0, 1); OGet (1, 1); OGet (1, 2); OSynth 0; OGet (0, 1); OSnapshot; ORestore;
+     OGet (0, 0); OSnapshot; ORestore; OSet (0, 0) 7 None; OGet (0, 0)])) PFuel = PPanic PUninit.
+Print Assumptions C26_example_memoless_dependency_fixed.
 
 (* ------------------------------------------------------------------------------------
    REFUTATIONS of the unrestricted property on the faithful model (each witness was replayed
